@@ -68,6 +68,9 @@ static std::vector<Pattern> patterns() {
     v.push_back({"request_empty_lines_before_request", 0, 1, [](size_t k, int p) { return Streams{rep(p ? "\n" : "\r\n", k) + RQ, "", 0}; }});
     v.push_back({"request_uri_percent_escapes", 0, 2, [](size_t k, int p) { return Streams{"GET /" + rep(p == 0 ? "%41" : p == 1 ? "%u0041" : "%zz", k) + " HTTP/1.1\r\nHost: h\r\n\r\n", "", 0}; }});
     v.push_back({"request_uri_dot_segments", 0, 2, [](size_t k, int p) { return Streams{"GET /" + rep(p == 0 ? "a/../" : p == 1 ? "./" : "//", k) + " HTTP/1.1\r\nHost: h\r\n\r\n", "", 0}; }});
+    // dot segments while the normalised output keeps growing: each ".." must cost one segment, not the whole output so far (seeded change C08-7)
+    v.push_back({"request_uri_dot_segments_growing_output", 0, 6, [](size_t k, int p) { std::string t = p == 0 ? rep("a/b/../", k) : p == 1 ? rep("a/", k) + rep("../", k) : p == 2 ? std::string(k, 'a') + "/" + rep("x/../", k) : p == 3 ? rep("a/", k) + rep("./", k) : p == 4 ? rep("a/b/%2e%2e/", k) : p == 5 ? rep("a\\b\\..\\", k) : rep("a//b/..//", k);
+        return Streams{"GET /" + t + " HTTP/1.1\r\nHost: h\r\n\r\n", "", 0}; }});
     v.push_back({"request_query_parameters", 0, 1, [](size_t k, int p) { return Streams{"GET /?" + (p ? repi("a", "=b&", k) : rep("a=b&", k)) + " HTTP/1.1\r\nHost: h\r\n\r\n", "", 0}; }});
     v.push_back({"request_cookies", 0, 1, [](size_t k, int p) { return Streams{RQH + "Cookie: " + (p ? repi("c", "=v; ", k) : rep("c=v; ", k)) + "\r\n\r\n", "", 0}; }});
     v.push_back({"request_chunks", 1, 9, [](size_t k, int p) { char h[16]; snprintf(h, sizeof h, "%x", p); return Streams{POSTC + rep(std::string(h) + "\r\n" + std::string((size_t)p, 'a') + "\r\n", k) + "0\r\n\r\n", "", 0}; }});
